@@ -559,3 +559,43 @@ def dblStrTrigger (ndigits : Nat) (e : Int) : Bool :=
   (decide (e < -6) && (ndigits == 1 || decide (-10 < e)))
 
 end EPV.Lex
+
+/-! ## timezones of the date/time/gregorian types
+
+datatypes/datetime.py: every date/time pattern ends with the group
+`(?P<tzinfo>Z|[+-](?:(?:0[0-9]|1[0-3]):[0-5][0-9]|14:00))?`; the matched text goes to
+`Timezone.fromstring` (lines 57-70) and comes back through `Timezone.tzname` / `__str__` (102-115). -/
+namespace EPV.Lex
+
+/-- the `tzinfo` group (full match): `Z|[+-](?:(?:0[0-9]|1[0-3]):[0-5][0-9]|14:00)` -/
+def matchTz : Str → Bool
+  | ['Z'] => true
+  | [sg, a, b, c, d, e] =>
+    (sg == '+' || sg == '-') &&
+    (((((a == '0' && isDigit b) || (a == '1' && ('0' ≤ b && b ≤ '3'))) && c == ':') &&
+        ('0' ≤ d && d ≤ '5') && isDigit e) ||
+     (a == '1' && b == '4' && c == ':' && d == '0' && e == '0'))
+  | _ => false
+
+/-- `Timezone.fromstring` on a text matched by the group, in minutes:
+`hours, minutes = text.split(':')`; when `hours.startswith('-')` the offset is
+`timedelta(hours=int(hours), minutes=-int(minutes))` (so `-00:30` is −30), else `+`; `'Z'` is 0. -/
+def tzOfLex : Str → Int
+  | ['Z'] => 0
+  | [sg, a, b, _, d, e] =>
+    if sg == '-' then intOfLex [sg, a, b] * 60 - (digitsVal [d, e] : Int)
+    else intOfLex [sg, a, b] * 60 + (digitsVal [d, e] : Int)
+  | _ => 0
+
+def tzParse (s : Str) : Option Int := if matchTz s then some (tzOfLex s) else none
+
+/-- two decimal digits, zero padded (`'{:02d}'`) -/
+def twoDigits (n : Nat) : Str :=
+  if n < 10 then '0' :: Nat.toDigits 10 n else Nat.toDigits 10 n
+
+/-- `Timezone.tzname`: `'Z'` for a zero offset, else sign, `hh:mm` of the absolute value -/
+def tzCanon (m : Int) : Str :=
+  if m == 0 then ['Z']
+  else (if m < 0 then '-' else '+') :: (twoDigits (m.natAbs / 60) ++ ':' :: twoDigits (m.natAbs % 60))
+
+end EPV.Lex
